@@ -200,6 +200,47 @@ def handleC15 (cmd : String) (args : List Sexp) : Option Sexp :=
       pure (match delField tc key with
         | .error e => tagged "err" [errToSexp e]
         | .ok tc' => tagged "ok" [tcToSexp tc'])
+  -- (c15.setfieldi (fields…) autocast nocast hint inplace (ck: 5 bools) locked (entries…) (nt…) key kind castAcceptedOk castOtherOk)
+  | "c15.setfieldi", [.list fs, ac, nc, h, inp, .list [c1, c2, c3, c4, c5], lk, .list es, .list nt, .atom key, k, cok, ook] => do
+      let tc : TC (TDm String String) String := ⟨"C", ⟨← entries? es, ← bool? lk⟩, ← nt? nt⟩
+      let a : SetArg String String := ⟨← valKind? k, "raw", "asTensor", if (← bool? cok) then some "castAccepted" else none, "fromDict", if (← bool? ook) then some "castOther" else none⟩
+      let ck : CopyOk := ⟨← bool? c1, ← bool? c2, ← bool? c3, ← bool? c4, ← bool? c5⟩
+      pure (match setFieldI (← fs.mapM asAtom?) ⟨← bool? ac, ← bool? nc⟩ (← hint? h) (← bool? inp) ck false tc key a with
+        | .error e => tagged "err" [errToSexp e]
+        | .ok tc' => tagged "ok" [tcToSexp tc', attrValToSexp (getField tc' key)])
+  -- (c15.settuple (fields…) autocast nocast hint inplace (ck) locked (entries…) (nt…) (key…) kind nestedOk)
+  | "c15.settuple", [.list fs, ac, nc, h, inp, .list [c1, c2, c3, c4, c5], lk, .list es, .list nt, .list key, k, cok, .atom nerr] => do
+      let tc : TC (TDm String String) String := ⟨"C", ⟨← entries? es, ← bool? lk⟩, ← nt? nt⟩
+      let a : SetArg String String := ⟨← valKind? k, "raw", "asTensor", if (← bool? cok) then some "castAccepted" else none, "fromDict", some "castOther"⟩
+      let ck : CopyOk := ⟨← bool? c1, ← bool? c2, ← bool? c3, ← bool? c4, ← bool? c5⟩
+      let nested : String → Except Err String := fun t =>
+        match nerr with
+        | "ok" => .ok (t ++ "'")
+        | "lock" => .error .lock | "value" => .error .value | "type" => .error .type | "key" => .error .key
+        | "attr" => .error .attr | _ => .error .runtime
+      let ks ← key.mapM asAtom?
+      pure (match setTuple (← fs.mapM asAtom?) ⟨← bool? ac, ← bool? nc⟩ (← hint? h) (← bool? inp) ck true nested tc ks a with
+        | .error e => tagged "err" [errToSexp e]
+        | .ok tc' => tagged "ok" [tcToSexp tc', attrValToSexp (getField tc' (ks.headD ""))])
+  -- (c15.options decorator autocast frozen nocast shadow (field names…)) | (c15.options meta kwA kwN kwF kwShadow base)
+  --   kw: true | false | none ; base: none | (autocast frozen nocast shadow)
+  | "c15.options", (.atom "decorator" :: a :: f :: n :: sh :: [.list fs]) => do
+      let names ← fs.mapM asAtom?
+      let o : ClsOpts := ⟨← bool? a, ← bool? f, ← bool? n, ← bool? sh⟩
+      pure (match createDecorated tdAttrs [idOf "_is_non_tensor", idOf "data"] o (names.map idOf) with
+        | .error e => tagged "err" [errToSexp e]
+        | .ok r => tagged "ok" [.atom (toString r.autocast), .atom (toString r.frozen), .atom (toString r.nocast), .atom (toString r.shadow)])
+  | "c15.options", [.atom "meta", ka, kn, kf, ks, b] => do
+      let ob? : Sexp → Option (Option Bool) := fun s => match s with
+        | .atom "none" => some none
+        | s => (bool? s).map some
+      let base : Option ClsOpts ← match b with
+        | .atom "none" => pure none
+        | .list [a, f, n, sh] => do pure (some ⟨← bool? a, ← bool? f, ← bool? n, ← bool? sh⟩)
+        | _ => none
+      pure (match metaOpts (← ob? ka) (← ob? kn) (← ob? kf) (← bool? ks) base with
+        | .error e => tagged "err" [errToSexp e]
+        | .ok r => tagged "ok" [.atom (toString r.autocast), .atom (toString r.frozen), .atom (toString r.nocast), .atom (toString r.shadow)])
   -- (c15.dropstale (entries…) (nt…)): `_non_tensordict` after the wrapper's pruning
   | "c15.dropstale", [.list es, .list nt] => do
       let tc : TC (TDm String String) String := ⟨"C", ⟨← entries? es, false⟩, ← nt? nt⟩
